@@ -73,16 +73,20 @@ Record ReprV (d : db) (L : list route) : Prop := {
   rv_vals : forall q, vals_at d q = at_q q L;
   rv_nonempty : forall q n, get d q = Some n -> vals n <> [] }.
 
-(** a node's flag is the flag of all its routes *)
-Definition ReprF (d : db) : Prop :=
-  forall q n v, get d q = Some n -> In v (vals n) -> flag n = rt_bt v.
+(** a node's flag is the flag of all its routes — claimed for the routes of the
+    sources selected by [P] (the others may be in the state finding C06-F2 leaves) *)
+Definition ReprF (P : nat -> bool) (d : db) : Prop :=
+  forall q n v, get d q = Some n -> In v (vals n) -> P (rt_src v) = true -> flag n = rt_bt v.
+
+Definition all_src : nat -> bool := fun _ => true.
 
 (** routes with the same pattern come from the same source / have the same flag *)
 Definition srcuni (L : list route) : Prop :=
   forall x y q, In x L -> In y L -> has_pat q x = true -> has_pat q y = true -> rt_src x = rt_src y.
 
-Definition btuni (L : list route) : Prop :=
-  forall x y q, In x L -> In y L -> has_pat q x = true -> has_pat q y = true -> rt_bt x = rt_bt y.
+Definition btuni (P : nat -> bool) (L : list route) : Prop :=
+  forall x y q, In x L -> In y L -> has_pat q x = true -> has_pat q y = true -> P (rt_src x) = true ->
+                rt_bt x = rt_bt y.
 
 (** the wildcard names of routes with the same pattern are compatible *)
 Definition kcompat (x y : route) : bool := keys_compat (rt_path x) (rt_path y).
@@ -104,8 +108,14 @@ Qed.
 Lemma ReprV_nil : ReprV [] [].
 Proof. split; simpl; try tauto; try reflexivity. intros q n H. discriminate. Qed.
 
-Lemma ReprF_nil : ReprF [].
+Lemma ReprF_nil P : ReprF P [].
 Proof. intros q n v H. discriminate. Qed.
+
+Lemma ReprF_mono (P Q : nat -> bool) d : (forall s, Q s = true -> P s = true) -> ReprF P d -> ReprF Q d.
+Proof. intros H F q n v G Hv HQ. apply (F q n v G Hv). apply H. exact HQ. Qed.
+
+Lemma btuni_mono (P Q : nat -> bool) L : (forall s, Q s = true -> P s = true) -> btuni P L -> btuni Q L.
+Proof. intros H B x y q Hx Hy Hqx Hqy HQ. apply (B x y q); try assumption. apply H. exact HQ. Qed.
 
 Lemma ReprV_in d L q n x : ReprV d L -> get d q = Some n -> In x (vals n) -> In x L /\ has_pat q x = true.
 Proof.
@@ -114,7 +124,7 @@ Qed.
 
 (** two indexes representing lists with the same routes per pattern are equal *)
 Lemma Repr_eq d1 d2 L1 L2 :
-  ReprV d1 L1 -> ReprF d1 -> ReprV d2 L2 -> ReprF d2 ->
+  ReprV d1 L1 -> ReprF all_src d1 -> ReprV d2 L2 -> ReprF all_src d2 ->
   (forall q, at_q q L1 = at_q q L2) -> d1 = d2.
 Proof.
   intros R1 F1 R2 F2 H. apply db_ext; [apply R1 | apply R2 |].
@@ -125,9 +135,9 @@ Proof.
     assert (v1 = v2) by congruence. subst v2.
     destruct v1 as [|x r].
     + exfalso. apply (rv_nonempty _ _ R1 q _ G1). reflexivity.
-    + pose proof (F1 q _ x G1 (or_introl eq_refl)) as E1.
+    + pose proof (F1 q _ x G1 (or_introl eq_refl) eq_refl) as E1.
       assert (Hx2 : In x (vals {| vals := at_q q L1; flag := f2 |})) by (simpl; rewrite <- V1; left; reflexivity).
-      pose proof (F2 q _ x G2 Hx2) as E2. simpl in E1, E2. congruence.
+      pose proof (F2 q _ x G2 Hx2 eq_refl) as E2. simpl in E1, E2. congruence.
   - exfalso. apply (rv_nonempty _ _ R1 q _ G1). congruence.
   - exfalso. apply (rv_nonempty _ _ R2 q _ G2). congruence.
   - reflexivity.
@@ -189,7 +199,7 @@ Proof.
     exists h, p. split; [tauto|]. split; [tauto|]. split; [apply has_pat_rpat; exact EP | exact A].
 Qed.
 
-Lemma add1_flag d L v d' : ReprV d L -> ReprF d -> m_add1 d v = inl d' -> btuni (L ++ [v]) -> ReprF d'.
+Lemma add1_flag P d L v d' : ReprV d L -> ReprF P d -> m_add1 d v = inl d' -> btuni P (L ++ [v]) -> ReprF P d'.
 Proof.
   intros R F E B. unfold m_add1 in E. fold (rpat v) in E.
   destruct (rpat v) as [p|] eqn:EP; [|discriminate].
@@ -197,15 +207,16 @@ Proof.
   pose proof (add_spec d p v (rt_bt v) (rv_sorted _ _ R)) as A.
   destruct (add d p v (rt_bt v)) as [d1|]; [|discriminate]. inversion E; subst d1.
   destruct A as (_ & _ & _ & G).
-  intros q n x Hg Hx. rewrite G in Hg. destruct (pat_eqb q p) eqn:Eq.
+  intros q n x Hg Hx HP. rewrite G in Hg. destruct (pat_eqb q p) eqn:Eq.
   - apply pat_eqb_eq in Eq. subst q. inversion Hg; subst n. simpl in *.
-    rewrite (rv_vals _ _ R) in Hx.
-    apply (B v x p).
-    + apply in_app_iff. right. left. reflexivity.
+    rewrite (rv_vals _ _ R) in Hx. symmetry.
+    apply (B x v p).
     + apply in_app_iff in Hx. apply in_app_iff. destruct Hx as [Hx|Hx]; [left; apply in_at_q in Hx; tauto | right; exact Hx].
-    + apply has_pat_rpat. exact EP.
+    + apply in_app_iff. right. left. reflexivity.
     + apply in_app_iff in Hx. destruct Hx as [Hx|[Hx|[]]]; [apply in_at_q in Hx; tauto | subst; apply has_pat_rpat; exact EP].
-  - apply (F q n x Hg Hx).
+    + apply has_pat_rpat. exact EP.
+    + exact HP.
+  - apply (F q n x Hg Hx HP).
 Qed.
 
 (** ** one Delete *)
@@ -217,9 +228,9 @@ Definition hit (fx : fixes) (r : rule) (v : route) (x : route) : bool :=
   | None => false
   end.
 
-Lemma del1_spec fx d L r v : ReprV d L -> ReprF d ->
+Lemma del1_spec P fx d L r v : ReprV d L -> ReprF P d ->
   (exists x, In x L /\ hit fx r v x = true) ->
-  exists d', m_del1 fx d r v = inl d' /\ ReprV d' (filter (fun x => negb (hit fx r v x)) L) /\ ReprF d'.
+  exists d', m_del1 fx d r v = inl d' /\ ReprV d' (filter (fun x => negb (hit fx r v x)) L) /\ ReprF P d'.
 Proof.
   intros R F (x0 & Hx0 & Hh0). unfold m_del1. fold (rpat v). unfold hit in *.
   destruct (rpat v) as [p|] eqn:EP; [|discriminate].
